@@ -316,6 +316,33 @@ def compare (sp : Special) (specs : List CmpSpec) (tbl : List Desc) (fs1 fs2 : L
   let b2 := body sp fs2
   b1.any (fieldDiffers specs tbl b2) || b2.any (fun f => (findField b1 f.1).isNone)
 
+/-! ### the report of reb_binary_diff (output_option 0: the difference stream written into archives) -/
+
+/-- what the first loop of reb_binary_diff (binarydiff.c:154-306) writes for field `f` of stream 1: the header with
+    size 0 if stream 2 has no such field (:187-198), header and payload OF STREAM 2 if the payloads differ
+    (:262-264; walltime fields included — they are exempt from the return value only), nothing otherwise -/
+def reportFirst (specs : List CmpSpec) (tbl : List Desc) (fs2 : List Field) (f : Field) : List Field :=
+  match findField fs2 f.1 with
+  | none => [(f.1, [])]
+  | some p2 => if payloadDiffer specs (descForType tbl f.1) f.2 p2 then [(f.1, p2)] else []
+
+/-- second loop (binarydiff.c:308-394): the fields of stream 2 that stream 1 does not have, in the order of stream 2 -/
+def reportSecond (fs1 fs2 : List Field) : List Field :=
+  fs2.filter (fun f => (findField fs1 f.1).isNone)
+
+/-- the field list reb_binary_diff writes with output_option 0, in the order of the source -/
+def diffReport (sp : Special) (specs : List CmpSpec) (tbl : List Desc) (fs1 fs2 : List Field) : List Field :=
+  let b1 := body sp fs1
+  let b2 := body sp fs2
+  b1.flatMap (reportFirst specs tbl b2) ++ reportSecond b1 b2
+
+/-- the payload for `id` that is in force after reading `fs1` and then `rep` (fields are applied in order, a later
+    field of the same id replaces the earlier one: input.c reads an archive snapshot as snapshot 0 + difference) -/
+def inForce (fs1 rep : List Field) (id : Nat) : Option Bytes :=
+  match findField rep id with
+  | some p => some p
+  | none => findField fs1 id
+
 /-- reb_simulation_diff -/
 def simDiff (psz : Nat) (sp : Special) (specs : List CmpSpec) (tbl : List Desc) (a b : Sim) (fpa fpb : Bool) : Bool :=
   compare sp specs tbl (encode psz sp tbl a fpa) (encode psz sp tbl b fpb)
